@@ -253,7 +253,13 @@ var c20Hostile = []string{
 	// subject strings around the '#hex' value form and malformed pairs
 	`"10.0.0.1.7"`, `"1.2.3.4.5.6.7.8.9.10.11.12.13.14.15.16.17"`, `"..."`, `"1..2.3"`,
 	`"CN=#"`, `"CN=#0"`, `"CN=#13"`, `"O=#1303616263, CN=#"`, `"=x"`, `"CN=a=b"`, `"CN=#zz"`,
+	// OID arcs just beyond what a signed / an unsigned 64-bit number holds
+	`"1.2.9223372036854775808"`, `"1.2.18446744073709551615"`, `"1.2.18446744073709551616.3"`, `"2.9223372036854775808"`,
 }
+
+// OID texts that pass the schema but have an arc no implementation number holds: an error, never a silent drop
+var c20BadOID = map[string]bool{`"1.2.99999999999999999999"`: true, `"9999999999999999999999999999999999999999"`: true,
+	`"1.2.9223372036854775808"`: true, `"1.2.18446744073709551615"`: true, `"1.2.18446744073709551616.3"`: true, `"2.9223372036854775808"`: true}
 
 var c20OIDSlot = regexp.MustCompile(`(^|\.)(oid|professionOids\.\[\]|\.signatureAlgorithm|\.tbs\.signature|algorithm)$|manipulations\.(\.signatureAlgorithm|\.tbs\.signature|\.tbs\.subjectPublicKey\.algorithm)$|extendedKeyUsage\.content\.\[\]$`)
 
@@ -538,7 +544,7 @@ func c20Exec(x *engine.Ctx, cc any) {
 				n++
 				continue
 			}
-			if c20OIDSlot.MatchString(ps) && (hi == 9 || hi == 12) {
+			if c20OIDSlot.MatchString(ps) && c20BadOID[h] {
 				// an over-long OID arc that passes the schema must surface as an error (or a skipped
 				// file) - not as a successful run in which the value was silently dropped
 				world := c20World(d, text)
